@@ -110,6 +110,7 @@ func main() {
 	errnos()
 	arches()
 	syscalls()
+	syscallNumbersPerArch()
 	ruleTables()
 	normalizations()
 	eventTypes()
@@ -365,6 +366,33 @@ func errnos() {
 		}
 		nontriv++
 	}
+	// every spelling - aliases (EWOULDBLOCK, EDEADLOCK) included, from the tree's map and from asm-generic -
+	// through the rule builder: -F exit=-NAME encodes the number the name stands for
+	names := map[string]int{}
+	for n, v := range auparse.AuditErrnoToNum {
+		names[n] = v
+	}
+	for n, v := range ref {
+		if _, ok := names[n]; !ok {
+			names[n] = int(v)
+		}
+	}
+	for name, num := range names {
+		evals++
+		_, inTree := auparse.AuditErrnoToNum[name]
+		w, err := buildLine("-a always,exit -S all -F exit=-" + name)
+		if err != nil {
+			if inTree {
+				rep("errno-name-not-accepted-by-builder", "errno name %s (= %d) of the tree's table is rejected in -F exit=-%s: %v", name, num, name, err)
+			}
+			continue
+		}
+		if got := int32(u32(w, offValues)); got != int32(-num) {
+			rep("errno-name-builds-other-number", "-F exit=-%s encodes %d, the name stands for errno %d", name, got, num)
+			continue
+		}
+		nontriv++
+	}
 	for num, name := range auparse.AuditErrnoToName {
 		evals++
 		if n2, ok := auparse.AuditErrnoToNum[name]; !ok || n2 != num {
@@ -483,6 +511,38 @@ func syscalls() {
 			}
 			if !ok {
 				rep("syscall-reverse-table:"+arch, "building -S %s for %s does not set exactly bit %d", name, arch, nr)
+				continue
+			}
+			nontriv++
+		}
+	}
+}
+
+// syscallNumbersPerArch: for EVERY architecture name the tree accepts x every number 0..600: the listing of
+// "-F arch=A -S n" names the syscall only with a name of A's own table for that number (else the number), and
+// the listed text builds the same rule again - a name maps to one number PER ARCHITECTURE.
+func syscallNumbersPerArch() {
+	var archNames []string
+	for _, n := range auparse.AuditArchNames {
+		archNames = append(archNames, n)
+	}
+	sort.Strings(archNames)
+	for _, a := range archNames {
+		for nr := 0; nr <= 600; nr++ {
+			evals++
+			line := fmt.Sprintf("-a always,exit -F arch=%s -S %d", a, nr)
+			w, err := buildLine(line)
+			if err != nil {
+				continue
+			}
+			txt, err := rule.ToCommandLine(rule.WireFormat(w), false)
+			if err != nil {
+				rep("syscall-number-not-listable", "%q was built but cannot be listed: %v", line, err)
+				continue
+			}
+			w2, err := buildLine(txt)
+			if err != nil || string(w2) != string(w) {
+				rep("syscall-number-name-not-inverse", "%q is listed as %q which builds (%v) a different rule: for this architecture the printed syscall name does not map back to number %d", line, txt, err, nr)
 				continue
 			}
 			nontriv++
